@@ -222,8 +222,64 @@ class Provenance:
         n = len(self.leaves)
         inner = self.of(t.args[0])
         del self.leaves[n:]
-        if inner in (DEFAULT, FIXED):
+        if inner in (DEFAULT, FIXED) and not self.exact_in_float32(t.args[0]):
             self.narrowed.append((t, inner))
+
+    SHAPE_ONLY = {"unsqueeze", "squeeze", "expand", "view", "reshape", "transpose", "index", "getitem", "flip", "clone", "contiguous", "detach", "T", "attr_T", "flatten", "cat", "stack"}
+
+    @classmethod
+    def exact_in_float32(cls, t):
+        """the value is the same number in every floating dtype (zeros, ones, small integers, float32 constants, re-arrangements of such):
+        creating it in the default dtype and converting afterwards loses nothing"""
+        if isinstance(t, bool):
+            return True
+        if isinstance(t, int):
+            return abs(t) < 2 ** 24
+        if isinstance(t, float):
+            import struct
+            return t != t or t in (float("inf"), float("-inf")) or struct.unpack("f", struct.pack("f", t))[0] == t
+        if isinstance(t, (list, tuple)):
+            return all(cls.exact_in_float32(x) for x in t)
+        if isinstance(t, Sym):
+            return "int" in t.tags
+        if isinstance(t, Op):
+            if t.op in ("zeros", "ones", "eye", "empty", "zeros_like", "ones_like", "empty_like", "new_zeros", "new_ones", "new_empty"):
+                return True
+            if t.op in ("arange", "randperm", "randint"):
+                return cls.all_int(list(t.args))
+            if t.op in ("full", "full_like", "new_full"):
+                return cls.exact_in_float32(t.args[-1]) if t.args else False
+            if t.op in ("tensor", "as_tensor"):
+                return bool(t.args) and (cls.all_int(t.args[0]) or cls.exact_in_float32(t.args[0]))
+            if t.op in cls.SHAPE_ONLY:
+                return bool(t.args) and cls.exact_in_float32(t.args[0])
+            if t.op in ("size", "numel", "len") or cls.all_int(t):
+                return True
+            if t.op in ("neg", "abs") and t.args:
+                return cls.exact_in_float32(t.args[0])
+            if t.op in ("add", "sub", "mul") and all(cls.intlike(x) for x in t.args):
+                return True  # sums and products of integer-valued tensors (counts, indices) are exact below 2**24
+        return False
+
+    @classmethod
+    def intlike(cls, t):
+        """integer-valued whatever its dtype: Python ints, index expressions, zeros / ones / arange, re-arrangements, sums and products of such"""
+        if isinstance(t, bool):
+            return False
+        if isinstance(t, int) or cls.all_int(t):
+            return True
+        if isinstance(t, Op):
+            if t.op in ("zeros", "ones", "eye", "zeros_like", "ones_like", "new_zeros", "new_ones"):
+                return True
+            if t.op in ("arange", "randperm", "randint"):
+                return cls.all_int(list(t.args))
+            if t.op in ("tensor", "as_tensor"):
+                return bool(t.args) and cls.all_int(t.args[0])
+            if t.op in cls.SHAPE_ONLY or t.op in ("neg", "abs", "to", "float", "double", "long", "int"):
+                return bool(t.args) and cls.intlike(t.args[0])
+            if t.op in ("add", "sub", "mul"):
+                return all(cls.intlike(x) for x in t.args)
+        return False
 
     @staticmethod
     def is_device(x):
